@@ -424,11 +424,11 @@ def publish(ctx: Ctx, rep: Report) -> None:
             key='pi-identity',
         )
         conn = [t for t in g.nodes if t.kind == 'test' and norm(
-            t.stmt.test) == 'not subgraph.is_fully_connected()']
+            t.stmt.test) == 'subgraph.is_fully_connected()']
         rep.count()
         rep.check(
             len(conn) == 1 and any(isinstance(n.stmt, ast.Raise)
-                                   and g.edge_dominates(conn[0].id, 'true',
+                                   and g.edge_dominates(conn[0].id, 'false',
                                                         n.id)
                                    for n in g.nodes), M,
             f'{cls}.run:connected', f.path, f.lineno,
